@@ -196,6 +196,13 @@ func (p *prov) origin(v ssa.Value, d int) string {
 		}
 		return x.Op.String() + p.origin(x.X, d+1)
 	case *ssa.Field:
+		if par, ok := x.X.(*ssa.Parameter); ok && par.Parent() != nil && par.Parent().Signature.Recv() != nil && par.Parent().Params[0] == par {
+			if st, isSt := par.Type().Underlying().(*types.Struct); isSt {
+				if sv, isCarrier := p.w.carrierField(st.Field(x.Field)); isCarrier {
+					return p.origin(sv, d+1) // a field of a carrier used by value
+				}
+			}
+		}
 		return p.origin(x.X, d+1) + fieldSeg(x.X.Type(), x.Field)
 	case *ssa.FieldAddr:
 		if al, ok := x.X.(*ssa.Alloc); ok {
@@ -289,6 +296,12 @@ func (p *prov) load(addr ssa.Value, d int) string {
 	case *ssa.FieldAddr:
 		if al, ok := a.X.(*ssa.Alloc); ok {
 			if s, ok := singleStore(al); ok {
+				// the spilled value receiver of a carrier's method
+				if par, isP := s.(*ssa.Parameter); isP && par.Parent() != nil && par.Parent().Signature.Recv() != nil && par.Parent().Params[0] == par {
+					if sv, isCarrier := p.w.carrierField(fieldOfAddr(a)); isCarrier {
+						return p.origin(sv, d+1)
+					}
+				}
 				return p.origin(s, d+1) + fieldSeg(a.X.Type(), a.Field)
 			}
 		}
@@ -879,11 +892,16 @@ func (w *World) carrierField(f *types.Var) (ssa.Value, bool) {
 	if !ok || named.Obj().Exported() {
 		return nil, false
 	}
-	// the only literal of that type in the module
+	// the only literal of that type in the module (the cell a value receiver is spilled to is not one)
 	n := 0
 	for _, fn := range w.ModFuncs {
 		allInstrs(fn, func(in ssa.Instruction) {
 			if a2, isAl := in.(*ssa.Alloc); isAl && types.Identical(a2.Type().(*types.Pointer).Elem(), T) {
+				if sv, one := singleStore(a2); one {
+					if _, isParam := sv.(*ssa.Parameter); isParam {
+						return
+					}
+				}
 				n++
 			}
 		})
@@ -911,6 +929,27 @@ func (w *World) carrierField(f *types.Var) (ssa.Value, bool) {
 			}
 			for _, a := range x.Common().Args[1:] {
 				if a == ssa.Value(al) {
+					return nil, false
+				}
+			}
+		case *ssa.UnOp: // a carrier used by value: the copy goes only into a method value or a method call
+			if x.Op != token.MUL || x.Referrers() == nil {
+				return nil, false
+			}
+			for _, rr := range *x.Referrers() {
+				switch y := rr.(type) {
+				case *ssa.MakeClosure:
+					fnc, isF := y.Fn.(*ssa.Function)
+					if !isF || !strings.HasSuffix(fnc.Name(), "$bound") {
+						return nil, false
+					}
+				case *ssa.Call:
+					cal := y.Common().StaticCallee()
+					if cal == nil || cal.Signature.Recv() == nil || len(y.Common().Args) == 0 || y.Common().Args[0] != ssa.Value(x) {
+						return nil, false
+					}
+				case *ssa.DebugRef:
+				default:
 					return nil, false
 				}
 			}
